@@ -341,6 +341,26 @@ def run_value_symmetry(P, rep, rule="R-MIRROR.value"):
                 sd = view_side(ol[0]) if ol else None
                 if sd in (1, 2):
                     used[sd].append(f["id"].rsplit("::", 1)[1])
+        # containers are ordered by their elements: an ordering computed from two lengths is at most the tie-break *after* the
+        # elements have been walked (lexicographic order), never the first thing decided
+        walks = [bi for bi, t in P.calls(fn) if t.get("f") and (
+            (t["f"].get("trait", "").endswith(("ArrayView", "ObjectView")) and t["f"]["id"].rsplit("::", 1)[1] in ("values", "iter", "keys", "get"))
+            or t["f"]["id"].endswith("Iterator::next"))]
+        after_walk = P.reach(fn, [b2 for w in walks for b2 in P.succ(fn)[w]]) if walks else set()
+        k_len = 0
+        for bi, t in P.calls(fn):
+            f = t.get("f")
+            if not f or f["id"].rsplit("::", 1)[1] not in ("partial_cmp", "cmp") or not t["args"]:
+                continue
+            ol = op_local(t["args"][0])
+            ty = P.local_ty(fn, ol[0]) if ol else ""
+            if ty.lstrip("&") not in ("usize", "u64", "u32", "i64", "i32", "isize"):
+                continue
+            if bi not in after_walk:
+                rep.viol(rule, "value_cmp length-order#%d" % k_len, P.where(fn, t["line"]),
+                         "two containers are ordered by comparing their lengths before any element is looked at: [9] < [1, 2] would hold; "
+                         "the value model orders arrays element by element (length is only the tie-break of a common prefix)")
+            k_len += 1
         closure_view_calls = []
         for body, org in so.all_bodies():
             if body is fn:
